@@ -127,12 +127,25 @@ def replay_with_crash_recovery(binary, args, cases, d):
     (why = process-crash) and the replay resumes after it.  A death that does not reproduce is an
     infrastructure failure."""
     fail, summ, prog = os.path.join(d, "fail.ndjson"), os.path.join(d, "sum.json"), os.path.join(d, "progress")
-    total, failures, start, crashes = None, [], 0, 0
+    total, failures, start, crashes, restarts = None, [], 0, 0, 0
+
+    def add(sm):
+        nonlocal total
+        if total is None:
+            total = sm
+            return
+        for k in ("cases", "executions", "programs", "failures", "nontrivial"):
+            total[k] += sm[k]
+        for k in ("skipped", "stats"):
+            for kk, v in (sm.get(k) or {}).items():
+                total[k][kk] = total[k].get(kk, 0) + v
+
     while True:
         try:
-            vf.run_harness(binary, args + ["-from", str(start), "-progress", prog])
+            rc = vf.run_harness(binary, args + ["-from", str(start), "-progress", prog], ok=(0, 4))
             crashed = None
         except vf.Infra as e:
+            rc = None
             try:
                 crashed = int(open(prog).read().strip())
             except Exception:
@@ -158,21 +171,25 @@ def replay_with_crash_recovery(binary, args, cases, d):
             m = re.search(r"fatal error: [^\n]*", str(e))
             failures.append({"why": "process-crash", "src": c.get("src"), "mode": "any", "case_index": crashed,
                              "got": {"panic": (m.group(0) if m else "the process died") + " (reproduced in a fresh process)"}})
-        part_fail = vf.load_failures(fail)
-        sm = json.load(open(summ)) if crashed is None else None
-        if crashed is None:
-            failures += part_fail
-            if total is None:
-                total = sm
-            else:
-                for k in ("cases", "executions", "programs", "failures", "nontrivial"):
-                    total[k] += sm[k]
-            total["failures"] = len(failures)
-            total["cases"] += crashes if crashes and total is sm else 0
-            return total, failures
-        # partial results of the dead process: only its failure file survives; count the cases it got through
-        failures += part_fail
-        start = crashed + 1
+        failures += vf.load_failures(fail)
+        if crashed is not None:
+            # partial results of the dead process: only its failure file survives
+            start = crashed + 1
+            continue
+        sm = json.load(open(summ))
+        add(sm)
+        if rc == 4:
+            # a real execution outlived the watchdog (recorded by the driver as a hang); it cannot be stopped inside the
+            # process, so the replay continues in a fresh one after that case
+            restarts += 1
+            total["stats"]["process restarts after a hang"] = restarts
+            if restarts < 25:
+                start = sm["restart_at"] + 1
+                continue
+            total["stats"]["cases not explored after 25 hangs"] = 1
+        total["failures"] = len(failures)
+        total["cases"] += crashes
+        return total, failures
 
 
 def prefetch(stages):
@@ -405,8 +422,8 @@ def stages_C06(tier):
     out = [Stage("mc-alloc-n%d" % (3 if tier == "quick" else 4), "MC_VM",
                  mc_vm_cfg("alloc", 3 if tier == "quick" else 4, invariants=("Conforms", "BudgetBounds", "RunsClean")),
                  kind="mc", workers=vf.NCPU),
-           Stage("alloc-n%d" % n, "MC_Expr", gen_cfg("alloc", n), "C06", modes="struct:noopt,none:noopt")]
-    out.append(Stage("alloc-sim", "MC_Expr", gen_cfg("alloc", 10, maxclosure=3), "C06", modes="struct:noopt,none:noopt",
+           Stage("alloc-n%d" % n, "MC_Expr", gen_cfg("alloc", n), "C06", modes="struct:noopt,none:noopt,struct:opt")]
+    out.append(Stage("alloc-sim", "MC_Expr", gen_cfg("alloc", 10, maxclosure=3), "C06", modes="struct:noopt,none:noopt,struct:opt",
                      simulate=200 if tier == "quick" else 2000, depth=12, warm=False))
     return out
 
@@ -628,10 +645,17 @@ def check_C10(tier):
 # ---------------------------------------------------------------------------
 # C17
 
+def optable_cfg(n):
+    return ("CONSTANTS\n  MaxEntries = %d\n  OpEmit = \"cases\"\nINIT Init\nNEXT Next\nINVARIANT NothingForUnmapped\n"
+            "INVARIANT EmitTable\nPROPERTY Monotone\nPROPERTY Stable\nCHECK_DEADLOCK FALSE\n" % n)
+
+
 def stages_C17(tier):
     modes = "struct:noopt,struct:opt,ptr:opt,altmap:opt,altmap:noopt"
     n = 5 if tier == "quick" else 6
-    return [Stage("ovl-n%d" % n, "MC_Expr", gen_cfg("ovl", n, emit="ovl", invariants=("EmitOvl", "OvlTyped")), "C17",
+    return [Stage("tables-%d" % (3 if tier == "quick" else 4), "OpTable", optable_cfg(3 if tier == "quick" else 4), "C17M",
+                  modes="struct:opt,struct:noopt,ptr:opt", timeout=2400),
+            Stage("ovl-n%d" % n, "MC_Expr", gen_cfg("ovl", n, emit="ovl", invariants=("EmitOvl", "OvlTyped")), "C17",
                   modes=modes, timeout=2400),
             Stage("ovl-branches-n%d" % (n + 1), "MC_Expr",
                   gen_cfg("ovlb", n + 1, emit="ovl", invariants=("EmitOvl", "OvlTyped")), "C17", modes=modes, timeout=2400),
@@ -826,6 +850,10 @@ def stages_C03(tier):
         out.append(Stage("sound-%s-n%d" % (fam, n), "MC_Expr", gen_cfg(fam, n), "C03S", modes=C03_MODES))
     for fam, n in C03_REJECT[tier]:
         out.append(Stage("reject-%s-n%d" % (fam, n), "MC_Err", err_cfg(fam, n, "reject"), "C03R",
+                         modes="struct:opt,struct:noopt", timeout=2400))
+    # violations that depend on the element type of the enclosing closure, among nested closures over other element types
+    for fam, n in ([("nest2", 7), ("builtin", 4)] if tier == "quick" else [("nest2", 8), ("builtin", 5)]):
+        out.append(Stage("reject-element-%s-n%d" % (fam, n), "MC_Err", err_cfg(fam, n, "ctx"), "C03R",
                          modes="struct:opt,struct:noopt", timeout=2400))
     sim_n = 300 if tier == "quick" else 4000
     out.append(Stage("sound-nest2-sim", "MC_Expr", gen_cfg("nest2", 12, maxclosure=2), "C03S", modes="struct:noopt,struct:opt",
